@@ -56,7 +56,9 @@ def _consistent(objs, scores):
     for a, b in zip(idx, idx[1:]):
         if not scores[a] < scores[b]:
             return False
-        if not all(x < y for x, y in zip(objs[a], objs[b])):
+        # clearly distinct doubles: a gap of a few ulps does not survive `np.around(x, 100)` (x*1e100/1e100) in front of the
+        # quantile transformer, nor the subtraction of the column minimum
+        if not all(y - x > 1e-12 * max(abs(x), abs(y)) for x, y in zip(objs[a], objs[b])):
             return False
     return True
 
@@ -103,6 +105,8 @@ def _gen_case(rng, t):
         weights = [round(rng.uniform(0.05, 1.0), 3) for _ in range(m)]
         if m >= 2 and rng.random() < 0.2:
             weights[rng.randrange(m)] = 0.0
+    elif nobj >= 1 and rng.random() < 0.2:
+        weights = "uniform"
     order = list(range(K))
     rng.shuffle(order)
     case = {
@@ -146,6 +150,8 @@ def _gen_case(rng, t):
             lb.append(col[rng.randrange(len(col))] if rng.random() < 0.6 else None)
         if any(b is not None for b in lb):
             case["bounds"] = lb
+    if nobj >= 2 and rng.random() < 0.15:
+        case["strategy_obj"] = True   # a MoScalarFunction instance instead of the strategy name
     if not case["fail"] and surrogate != "GP" and rng.random() < 0.2:
         case["lies"] = rng.choice(["cl_max", "cl_max", "cl_min", "cl_mean"])   # constant-liar batch after the last fit
     return case
@@ -307,6 +313,10 @@ def _observe(case):
         with _Spies() as spies:
             ev = Evaluator.create(_run_function, method="serial")
             kw = dict(INTERP_KW) if case["interp"] else ({"n_estimators": 25} if case["surrogate"] != "GP" else None)
+            strategy = case["strategy"]
+            if case.get("strategy_obj"):
+                strategy = spies.moo.moo_functions[case["strategy"]](n_objectives=max(case["nobj"], 1), weight=case["weights"],
+                                                                     random_state=case["seed"])
             search = CBO(
                 problem, ev, random_state=case["seed"], log_dir=tmp, verbose=0,
                 surrogate_model=case["surrogate"], surrogate_model_kwargs=kw,
@@ -314,7 +324,7 @@ def _observe(case):
                 scheduler={"type": "periodic-exp-decay", "period": 10, "rate": 0.0},
                 n_initial_points=n_init, initial_points=[{"a": int(a)} for a in case["order"][:n_init]],
                 n_points=60 + 10 * K, filter_duplicated=False, objective_scaler=case["scaler"],
-                moo_scalarization_strategy=case["strategy"], moo_scalarization_weight=case["weights"],
+                moo_scalarization_strategy=strategy, moo_scalarization_weight=case["weights"],
                 filter_failures=case.get("ff", "min"), moo_lower_bounds=case.get("bounds"),
                 multi_point_strategy=case.get("lies") or "cl_max",
             )
@@ -662,7 +672,8 @@ def _judge(ck, case, obs, reps, eff, pending):
     ck.count(f"strategy:{case['strategy'] if case['nobj'] >= 1 else 'single'}")
     ck.count(f"nobj:{case['nobj']}")
     ck.count(f"kind:{case['kind']}/{case['sign']}")
-    ck.count("weights:" + ("none" if case["nobj"] == 0 else "random" if case["weights"] is None else "fixed"))
+    ck.count("weights:" + ("none" if case["nobj"] == 0 else "random" if case["weights"] is None else "uniform" if case["weights"] == "uniform" else "fixed")
+             + ("+strategy-object" if case.get("strategy_obj") else ""))
     ck.count("history:" + ("failures/" + case.get("ff", "min") if case.get("fail") else f"fits={1 + len(case.get('rounds', []))}"))
     ck.count("route:" + case.get("route", "search") + ("+bounds" if case.get("bounds") else ""))
     mags = [abs(v) for r in case["objs"] for v in r if v != 0]
@@ -692,14 +703,14 @@ def _monotone_case(rng, t):
     """(a) `climb`: 8 fixed initial points in the lower 55 % of 0..K-1 (best well below the maximiser), identity scaler
     (explicit, or `auto` with GP), every strategy — distance-based ones most often — x {ET, GP};
     (b) random initial points over the whole range, whole matrix."""
-    r = t % 8
+    r = t % 10
     if r < 6:
         K = rng.choice([101, 201])
         sur = "ET" if r < 4 else "GP"
         # GP + Quadratic is left to ET: with quadratically growing targets the GP mean reverts to its prior beyond the data and
         # the climb rate becomes a property of the surrogate (10-70 % of the way in 20 steps on correct code), not of the direction;
         # that combination stays covered by the surrogate-independent clauses at every fit of the multi-fit histories
-        strat = DISTANCE[r] if r < 4 else DISTANCE[:3][((t // 8) * 2 + (r - 4)) % 3]
+        strat = DISTANCE[r] if r < 4 else DISTANCE[:3][((t // 10) * 2 + (r - 4)) % 3]
         if rng.random() < 0.1:
             strat = "Linear"
         init = [int(round((K - 1) * q)) for q in (0.025, 0.1, 0.175, 0.25, 0.325, 0.4, 0.475, 0.55)]
@@ -707,8 +718,12 @@ def _monotone_case(rng, t):
                 "strategy": strat, "nobj": rng.choice([2, 2, 3]), "K": K,
                 "sign": ["pos", "neg", "mixed"][(t // 2) % 3], "seed": rng.randrange(1 << 20), "init": init,
                 "n_evals": 8 + (20 if sur == "GP" else 24)}
-    return {"mono": True, "surrogate": SURROGATES[t % 3], "scaler": SCALERS[(t // 3) % 4], "strategy": STRATS[t % 5], "nobj": rng.choice([0, 2, 3]), "K": 20,
-            "sign": ["pos", "neg", "mixed"][(t // 2) % 3], "seed": rng.randrange(1 << 20), "n_evals": 26 if SURROGATES[t % 3] == "GP" else 36}
+    # random initial points over 0..19, whole matrix, and the other acquisition functions (none of them is exploitation-only:
+    # EI / PI weigh the improvement by the predictive std, MES is information-based, gp_hedge mixes EI, LCB, PI)
+    acq = {6: "UCB", 7: "MES", 8: "gp_hedge", 9: rng.choice(["EI", "PI"])}[r]
+    sur = SURROGATES[(t // 10) % 3] if acq != "MES" or rng.random() < 0.5 else "ET"
+    return {"mono": True, "surrogate": sur, "scaler": SCALERS[(t // 3) % 4], "strategy": STRATS[t % 5], "nobj": rng.choice([0, 2, 3]), "K": 20,
+            "sign": ["pos", "neg", "mixed"][(t // 2) % 3], "seed": rng.randrange(1 << 20), "n_evals": 26 if sur == "GP" else 36, "acq": acq}
 
 
 def _mono_objs(case):
@@ -742,7 +757,7 @@ def _observe_mono(case):
             extra = {"initial_points": [{"a": int(a)} for a in case["init"]]}
         search = CBO(problem, ev, random_state=case["seed"], log_dir=tmp, verbose=0, surrogate_model=case["surrogate"],
                      surrogate_model_kwargs={"n_estimators": 25} if case["surrogate"] != "GP" else None,
-                     acq_func="UCB", acq_optimizer="sampling", n_initial_points=8, n_points=300 if case.get("climb") else 200,
+                     acq_func=case.get("acq", "UCB"), acq_optimizer="sampling", n_initial_points=8, n_points=300 if case.get("climb") else 200,
                      filter_duplicated=False, objective_scaler=case["scaler"], moo_scalarization_strategy=case["strategy"],
                      moo_scalarization_weight=[1.0 / max(nobj, 1)] * max(nobj, 1) if nobj else None, **extra)
         res = search.search(max_evals=case["n_evals"])
@@ -789,9 +804,16 @@ def _judge_mono(ck, case, obs, eff):
     late = a[-12:]
     mid = top / 2.0
     mean_late = sum(late) / len(late)
-    ck.count("mono:late-mean>=0.75K" if mean_late >= 0.75 * top else "mono:late-mean<0.75K")
+    acq = case.get("acq", "UCB")
+    ck.count(f"mono:acq={acq}:" + ("late-mean>=0.75K" if mean_late >= 0.75 * top else "late-mean>mid" if mean_late > mid else "late-mean<=mid"))
+    if acq in ("EI", "PI"):
+        # improvement-based acquisitions explore wherever the predictive std is 0 at the observed points (fully grown forests):
+        # exercised (must not raise), measured, not asserted
+        return
     if mean_late <= mid:
-        ck.fail(_fp("concentrates-away-from-maximiser", case, eff, "CBO.search"),
+        # for a non-default acquisition the option the failure hangs on is the acquisition itself (observed with every scaler / strategy)
+        fp = _fp("concentrates-away-from-maximiser", case, eff, "CBO.search") if acq == "UCB" else f"C05|concentrates-away-from-maximiser|CBO.search|acq_func={acq}"
+        ck.fail(fp,
                 "on a monotone problem (objective increasing in a) the late proposals concentrate in the lower half", case,
                 {"proposals": a, "late_mean": mean_late, "midpoint": mid})
 
@@ -1018,7 +1040,9 @@ def run(ck):
                "offsets up to 1e5 x the span (distinct doubles checked): all-positive, all-negative, mixed sign; independent (pareto)} x acq {UCB,UCBd} x seeds; "
                "half of the cases re-run with a constant vector added and with a positive factor 1e-9..1e9; plus monotone problems with default exploration "
                "(random initial points on 0..19; 8 fixed initial points far below the maximiser on 0..100/200 with the identity scaler x distance-based strategies x "
-               "{ET,GP}), the documented objective forms through CBO._tell, and the name maps. distinct by canonical case; non-trivial = multi-objective, or "
+               "{ET,GP}; acq_func MES / gp_hedge asserted, EI / PI exercised), routes search() / fit_surrogate(DataFrame), moo_lower_bounds on 20 % of the "
+               "multi-objective cases, MoScalarFunction instances and uniform weights, constant-liar batches ask(3) with cl_max/cl_mean/cl_min after the last fit, "
+               "the documented objective forms through CBO._tell, and the name maps. distinct by canonical case; non-trivial = multi-objective, or "
                "objectives not all negative, or a multi-fit / failure history")
     ck.assumptions = [
         "surrogate (scikit-learn forests / GP) is not modelled: its predictions at the candidates are observed and passed to the model; the maximality oracle "
@@ -1033,7 +1057,7 @@ def run(ck):
     ck.trusted_extra = ["scikit-learn forests / GaussianProcessRegressor / QuantileTransformer / MinMaxScaler numerics", "numpy argmin tie-breaking = first index"]
     workers = min(16, os.cpu_count() or 1) if ck.thorough else 1
     nbase = ck.pick(110, 2400)
-    nmono = ck.pick(8, 160)
+    nmono = ck.pick(10, 160)
     corpus = _load_corpus()
     cases = [c for c in corpus if not c.get("mono")]
     cases += [_gen_case(ck.rng, t) for t in range(nbase)]
